@@ -121,9 +121,10 @@ namespace RecInt
 
     // a = b^(-1) mod c if b invertible
     template <size_t K>
-    inline ruint<K>& inv_mod(ruint<K>& a, const ruint<K>& b, const ruint<K>& c) {
+    inline ruint<K>& inv_mod(ruint<K>& a, const ruint<K>& b, const ruint<K>& cc) {
         ruint<K+1> resmul;
         ruint<K> x(0), a2, b2, q, r, temp;
+        const ruint<K> c(cc); // the modulus is read in every step: a may be the modulus
         bool ret;
 
         copy(a2, b);
